@@ -165,7 +165,7 @@ theorem bdays_add (c : Cal) (a : Adj) (t n : Int) (h : InRange c (c.adjust a t) 
     ∃ r, c.add a t n = .ok r ∧ c.bdaysBetween a t r = .ok n := by
   obtain ⟨r, hr, rB, r0, r1, rK⟩ := add_spec c a t n h
   refine ⟨r, hr, ?_⟩
-  unfold Cal.bdaysBetween
+  unfold Cal.bdaysBetween Cal.bdaysBetweenT
   rw [Calendar.adjust_bday c a r r0 r1 rB, clockOf_bday c r r0 r1 rB, clockOf_bday c _ h.1 h.2.1 h.2.2.1]
   show Except.ok _ = Except.ok _
   congr 1; omega
@@ -181,7 +181,7 @@ theorem add_inverse (c : Cal) (a a' : Adj) (t n : Int) (t0 : c.t0 ≤ t) (t1 : t
   rw [hc]
   have : n + -n = 0 := by omega
   rw [this]
-  simp [Cal.add, hfix]
+  simp [Cal.add, Cal.addT, hfix]
 
 /-! ### Calendar.drange(t0, t1, '1b') -/
 
@@ -191,7 +191,7 @@ theorem drange_1b (c : Cal) (x y : Int)
     (hx : c.t0 ≤ c.adjust c.adj x ∧ c.adjust c.adj x ≤ c.t1 ∧ c.isB (c.adjust c.adj x) = true)
     (hy : c.t0 ≤ c.adjust c.adj y ∧ c.adjust c.adj y ≤ c.t1 ∧ c.isB (c.adjust c.adj y) = true) :
     c.drangeB x y 1 = .ok (c.bd (c.adjust c.adj x) (c.adjust c.adj y)) := by
-  unfold Cal.drangeB
+  unfold Cal.drangeB Cal.drangeBT
   generalize c.adjust c.adj x = a0 at *
   generalize c.adjust c.adj y = a1 at *
   rw [clockOf_bday c a0 hx.1 hx.2.1 hx.2.2, clockOf_bday c a1 hy.1 hy.2.1 hy.2.2]
